@@ -128,6 +128,12 @@ impl Function {
     }
 
     pub fn date() -> Result<Val> {
+        #[cfg(feature = "verif")]
+        #[allow(unreachable_code)]
+        {
+            return Ok(Val::String(crate::verif::date_string().into()));
+        }
+        #[allow(unreachable_code)]
         Ok(Val::String(
             chrono::Local::now().format("%m-%d-%Y").to_string().into(),
         ))
@@ -406,6 +412,12 @@ impl Function {
     }
 
     pub fn time() -> Result<Val> {
+        #[cfg(feature = "verif")]
+        #[allow(unreachable_code)]
+        {
+            return Ok(Val::String(crate::verif::time_string().into()));
+        }
+        #[allow(unreachable_code)]
         Ok(Val::String(
             chrono::Local::now().format("%H:%M:%S").to_string().into(),
         ))
